@@ -133,6 +133,12 @@ def replay(modname, key, callexpr):
         res["raised"] = "%s: %s" % (type(e).__name__, str(e)[:300])
         res["traceback"] = traceback.format_exc()[-1500:]
         res["reproduced"] = True
+        # an exception raised by a statement of the harness itself (innermost frame under /verif)
+        # is a harness bug, not a property violation
+        tb = traceback.extract_tb(e.__traceback__)
+        if tb and tb[-1].filename.startswith("/verif/"):
+            res["harness_error"] = True
+            res["reproduced"] = False
     # preconditions: evaluate them concretely too, so a cex outside pre: is not accepted
     try:
         from crosshair.condition_parser import Pep316Parser
@@ -147,7 +153,9 @@ def replay(modname, key, callexpr):
         bound.apply_defaults()
         pre_ok = True
         for p in conds.pre:
-            if not eval(p.expr_source, dict(h.fn.__globals__), dict(bound.arguments)):
+            g = dict(h.fn.__globals__)
+            g.update(inspect.getclosurevars(h.fn).nonlocals)
+            if not eval(p.expr_source, g, dict(bound.arguments)):
                 pre_ok = False
         res["pre_ok"] = pre_ok
         if not pre_ok:
